@@ -19,6 +19,9 @@ CHECKS = {
  "C09": dict(level=MC, engine="graphwalk+tracecheck", technique="TLA+ ADT specs (SortedSet.tla, SortedMap.tla = builtin set/dict semantics with ascending iteration) model-checked by TLC; graph walk from every initial collection; trace validation by TLC",
              text="TLC exhaustively checks both specifications (no repeats, ascending iteration, later pair wins; negative controls must fail) from every initial collection of up to 3 elements (empty, unsorted, repeats; mapping and pair form) over abstract numbers concretised as mixed int/float, emits every transition, and the real SortedSet/SortedMap are driven through every (content, operation) pair including foreign-typed probes; random histories over 12 values are validated by TLC.",
              note="numeric keys without NaN; foreign probes = str and None against non-empty content; pop/popitem may return any member; small-scope exhaustive, sampled beyond", ref="4 C09"),
+ "C15": dict(level=MC, engine="graphwalk+tracecheck", technique="TLA+ ADT specs (ReorderBuffer.tla, PrintBuffer.tla, CircularBuffer.tla) model-checked by TLC; graph walk over every arrival order x drain point / put-clear sequence; trace validation of 200-serial permutations by TLC",
+             text="TLC exhaustively checks the three specifications (emit-in-order-once, counters, flush ascending, window = last min(k,c) puts, reject outside 0..len-1; each with a negative control that must fail) for every arrival order of 4-5 serials with drain/flush/clear at every point and for ring capacities 1..3, emits every transition, and the real Buffer, PrintBuffer and CircularBuffer are driven through every (state, operation) pair; random permutations of 200 serials and long ring histories are validated by TLC.",
+             note="each serial fed once per epoch; draining = exhausting the iterator; printed output captured through a StringIO; small-scope exhaustive, sampled beyond", ref="4 C15"),
 }
 PENDING = "check not built yet in this session (planned, see DESIGN.md section 4)"
 
